@@ -225,6 +225,27 @@ def main():
     m = re.search(r"skip_flush_count:\s*(\d+)\s*,", t)
     put("core_skip_flush_initial", m.group(1) if m else None)
 
+    # ---- order of the storage-affecting steps inside the mutating calls (positions of the marker calls in the body)
+    def order_of(body, markers):
+        pos = []
+        for label, rx in markers:
+            m = re.search(rx, body or "")
+            if m is None:
+                return None
+            pos.append((m.start(), label))
+        return "[" + ", ".join('"%s"' % l for _, l in sorted(pos)) + "]"
+    put("core_flush_order", order_of(fn_body(t, "flush_bitfield_and_tree_and_oplog"),
+        [("bitfield", r"self\.bitfield\.flush\("), ("tree", r"self\.tree\.flush\("), ("oplog", r"self\.oplog\.flush\(")]))
+    put("core_apply_order", order_of(fn_body(t, "verify_and_apply_proof"),
+        [("verify", r"self\.verify_proof\("), ("data", r"self\.block_store\.put\("), ("entry", r"self\.oplog\.append_changeset\("),
+         ("bits", r"self\.bitfield\.update\("), ("commit", r"self\.tree\.commit\("), ("flush", r"self\.should_flush_bitfield_and_tree_and_oplog\(")]))
+    put("core_append_order", order_of(fn_body(t, "append_batch"),
+        [("data", r"self\s*\.block_store\s*\.append_batch\("), ("entry", r"self\.oplog\.append_changeset\("),
+         ("bits", r"self\.bitfield\.update\("), ("commit", r"self\.tree\.commit\("), ("flush", r"self\.should_flush_bitfield_and_tree_and_oplog\(")]))
+    put("core_clear_order", order_of(fn_body(t, "clear"),
+        [("entry", r"self\.oplog\.clear\("), ("bits", r"self\.bitfield\.set_range\("), ("data", r"self\.block_store\.clear\("),
+         ("flush", r"self\.should_flush_bitfield_and_tree_and_oplog\(")]))
+
     # ---- events
     t = strip_comments(src("src/replication/events.rs"))
     e = const_int(t, "MAX_EVENT_QUEUE_CAPACITY")
